@@ -134,9 +134,34 @@ pub fn generate(
             quote! {}
         };
 
+        // The width of a custom type (e.g. a bitenum) is only known to the compiler. The getter checks it
+        // implicitly, but a field without a getter would accept a type of any width. Therefore always
+        // emit a (never called) function that only compiles if the raw value has the expected width
+        let width_check = if let CustomType::Yes(convert_type) = &field_definition.custom_type {
+            let raw_value_type = if field_definition.use_regular_int {
+                field_definition.primitive_type.clone()
+            } else {
+                TokenStream2::from_str(format!("arbitrary_int::u{}", total_number_bits).as_str()).unwrap()
+            };
+            let check_name = syn::parse_str::<Ident>(
+                format!("__bitbybit_width_check_{}", with_name(field_name)).as_str(),
+            )
+            .unwrap_or_else(|_| panic!("bitfield!: Error creating width check name"));
+            quote! {
+                #[doc(hidden)]
+                #[allow(dead_code)]
+                const fn #check_name(field_value: #convert_type) -> #raw_value_type {
+                    field_value.raw_value()
+                }
+            }
+        } else {
+            quote! {}
+        };
+
         quote! {
             #getter
             #setter
+            #width_check
         }
     }).collect();
 
